@@ -56,7 +56,7 @@ func (d *dir) ReadDir(n int) ([]hackpadfs.DirEntry, error) {
 		if start == len(entries) {
 			return nil, io.EOF
 		}
-		if start+n < len(entries) {
+		if n < len(entries)-start { // not start+n: a huge n must not overflow
 			end = start + n
 		}
 	}
